@@ -16,7 +16,7 @@ from suite_json import impl_write, same_spec
 from suite_glencoe import equivalent
 
 XML_NAMES = ("plain", "space", "punct", "keyword", "lead", "nonascii", "quote", "xmlspecial", "long", "xmlcontrol")
-gen.NAME_CLASSES["xmlcontrol"] = ["tab\there", "new\nline", "trail\n", "\tlead", "two\n\nlines"]
+gen.NAME_CLASSES["xmlcontrol"] = ["tab\there", "new\nline", "trail\n", "\tlead", "two\n\nlines", "a\rb", "cr\r\nlf", "\r"]
 gen.NAME_CLASSES["xmlspecial"] = ["<a&b>", "a>b", "&amp;", "back\\slash", "]]>", "<!--", "a\"b'c", "x=\"1\""]
 FIDE_OPS = ["NOT", "AND", "OR", "IMPLIES", "EQUIVALENCE", "REQUIRES", "EXCLUDES"]
 
